@@ -13,7 +13,11 @@ META = {
             "transposes of ascending / descending passes), vertices_per_side in None, 2, 3, 5, side, side+3, 50: sides chain, ring "
             "closed, vertices are edge pixels, no repeats, clockwise footprint (own spherical-area and point-in-polygon oracle). "
             "Geostationary: full disk and sub-areas. Non-trivial: vertices_per_side given, or orientation not north-up. "
-            "Distinct = distinct canonical input.",
+            "Distinct = distinct canonical input. appended: swaths put together from 2-4 granules with append() (in place; with and without "
+            "boundary requests in between), concatenate() or directly, 8 orientations: the ring is judged against the CURRENT arrays (sides chain, "
+            "begin at the four corner pixels, advance monotonically along one outer row / column, vertex counts, no repeats, boundary() = the same "
+            "ring, clockwise footprint). call-sequence: swaths and areas of every orientation after 1-3 earlier requests on the same object "
+            "(plain outline, other vertex counts, the same request): the same judgement, and the plain outline asked afterwards is still in array order.",
     "assumptions": ["footprint / orientation clauses are floating-point spherical geometry: decided by an independent oracle, not proved",
                     "np.linspace(..., dtype=int) selections are data for the model (their goodness is decided by the model per case)"],
 }
@@ -417,7 +421,281 @@ def suite_geos(ctx):
             ctx.case("geos", (nm, k), nontrivial=nm != "full_disk", sample={"input": inp, "n_vertices": len(clon), "area_sr": area_impl})
 
 
+# ---------------------------------------------------------------------------------------------
+# geometries with a history: swaths extended in place, and repeated / mixed boundary requests on one object
+# ---------------------------------------------------------------------------------------------
+
+def _ring_problems(geo, lons, lats, k):
+    """The whole property for a geometry whose pixel coordinates are, right now, the (H, W) arrays lons / lats (no invalid
+    values, all coordinates distinct).  Nothing is taken from the geometry object but the two results under test.
+    -> (problems of get_bbox_lonlats(force_clockwise=True), problems of boundary(force_clockwise=True), observed)"""
+    H, W = lons.shape
+    with warnings.catch_warnings():
+        warnings.simplefilter("ignore")
+        lon_s, lat_s = geo.get_bbox_lonlats(vertices_per_side=k, force_clockwise=True)
+        b = geo.boundary(vertices_per_side=k, force_clockwise=True)
+        clon, clat = b.contour()
+        area_impl = float(b.contour_poly.area())
+    obs = {"side_lengths": [len(s) for s in lon_s], "n_contour": len(clon), "polygon_area_sr": area_impl}
+    p_sides, p_bnd = [], []
+    edge = {}
+    for r_ in range(H):
+        for c_ in range(W):
+            if r_ in (0, H - 1) or c_ in (0, W - 1):
+                edge[(float(lons[r_, c_]), float(lats[r_, c_]))] = (r_, c_)
+    if len(lon_s) != 4 or len(lat_s) != 4:
+        return ["not four sides"], p_bnd, obs
+    idx = []
+    for i in range(4):
+        side = [edge.get((float(lo), float(la))) for lo, la in zip(lon_s[i], lat_s[i])]
+        if None in side or len(side) < 2:
+            p_sides.append(f"side {i} has a vertex that is not the coordinate of a pixel on the outer rows / columns of the {H}x{W} arrays"
+                           if None in side else f"side {i} has {len(side)} vertex")
+            return p_sides, p_bnd, obs
+        idx.append(side)
+    obs["side_ends"] = [[list(s[0]), list(s[-1])] for s in idx]
+    for i in range(4):
+        j = (i + 1) % 4
+        if idx[i][-1] != idx[j][0]:
+            p_sides.append(f"side {i} ends at pixel {idx[i][-1]} but side {j} begins at pixel {idx[j][0]}")
+            break
+    corners = {(0, 0), (0, W - 1), (H - 1, W - 1), (H - 1, 0)}
+    if {s[0] for s in idx} != corners:
+        p_sides.append(f"the sides begin at pixels {sorted(s[0] for s in idx)}, not at the four corner pixels {sorted(corners)}")
+    for i, s in enumerate(idx):
+        along_row = s[0][0] in (0, H - 1) and all(q[0] == s[0][0] for q in s)
+        along_col = s[0][1] in (0, W - 1) and all(q[1] == s[0][1] for q in s)
+        if along_row == along_col:
+            p_sides.append(f"side {i} does not run along one outer row or column")
+            continue
+        run, full = ([q[1] for q in s], W) if along_row else ([q[0] for q in s], H)
+        if not (all(a < b_ for a, b_ in zip(run, run[1:])) or all(a > b_ for a, b_ in zip(run, run[1:]))):
+            p_sides.append(f"side {i} does not advance monotonically along its row / column")
+        want = full if k is None else min(k, full)
+        if len(s) != want:
+            p_sides.append(f"side {i} has {len(s)} vertices, {want} expected ({full} pixels on that side, vertices_per_side={k})")
+    ring = [q for s in idx for q in s[:-1]]
+    if len(set(ring)) != len(ring):
+        p_sides.append(f"the ring repeats a vertex ({len(ring)} vertices, {len(set(ring))} distinct)")
+    ring_lon = np.concatenate([np.asarray(s, float)[:-1] for s in lon_s])
+    ring_lat = np.concatenate([np.asarray(s, float)[:-1] for s in lat_s])
+
+    def footprint(lo, la, who, out):
+        sa, _ = _signed_area(lo, la)
+        if not (sa < 0):
+            out.append(f"{who} runs counter-clockwise (signed area {sa:.4f} sr): it encloses the complement of the footprint")
+            return
+        rr = np.concatenate([np.zeros(W - 1, int), np.arange(H - 1), np.full(W - 1, H - 1), np.arange(H - 1, 0, -1)])
+        cc = np.concatenate([np.arange(W - 1), np.full(H - 1, W - 1), np.arange(W - 1, 0, -1), np.zeros(H - 1, int)])
+        ref = abs(_signed_area(lons[rr, cc], lats[rr, cc])[0])
+        tol = 1e-9 if k is None else 0.4
+        # (with a few vertices around a strip only 2-4 pixels wide the jitter of the corner pixels decides the area: discretisation)
+        if (k is None or min(H, W) >= 5) and abs(abs(sa) - ref) > tol * ref + 1e-12:
+            out.append(f"{who} encloses {abs(sa):.6f} sr, the footprint (ring of all edge pixels) is {ref:.6f} sr")
+        # (a ring of a few vertices around a strip only 3-4 pixels wide may cut the middle pixel off: that is discretisation)
+        if min(H, W) >= (3 if k is None else 5) and _inside(lo, la, float(lons[H // 2, W // 2]), float(lats[H // 2, W // 2])) is False:
+            out.append(f"the interior pixel ({H // 2}, {W // 2}) lies outside {who}")
+    if not p_sides:
+        footprint(ring_lon, ring_lat, "the ring of the four sides", p_sides)
+    # boundary(): the same ring (each side without its last vertex), enclosing the footprint
+    if not (np.array_equal(np.asarray(clon, float), ring_lon) and np.array_equal(np.asarray(clat, float), ring_lat)):
+        p_bnd.append("boundary(force_clockwise=True).contour() is not the ring made of the four sides of get_bbox_lonlats(force_clockwise=True)")
+    cpts = [edge.get((float(lo), float(la))) for lo, la in zip(clon, clat)]
+    if None in cpts:
+        p_bnd.append("a vertex of boundary().contour() is not the coordinate of a pixel on the outer rows / columns")
+    elif len(set(cpts)) != len(cpts):
+        p_bnd.append(f"boundary().contour() repeats a vertex ({len(cpts)} vertices, {len(set(cpts))} distinct)")
+    elif len(cpts) >= 3:
+        footprint(np.asarray(clon, float), np.asarray(clat, float), "the contour of boundary(force_clockwise=True)", p_bnd)
+        sa = _signed_area(clon, clat)[0]
+        if not (0 < area_impl < 2 * math.pi):
+            p_bnd.append(f"boundary().contour_poly has area {area_impl:.4f} sr, not below a hemisphere")
+        elif abs(area_impl - abs(sa)) > 1e-6 * max(1.0, abs(sa)) + 1e-9:
+            p_bnd.append(f"boundary().contour_poly area {area_impl:.6f} differs from the area its vertices enclose {abs(sa):.6f}")
+    return p_sides, p_bnd, obs
+
+
+def _report(ctx, suite, geo, lons, lats, k, inp, tags, key, nontrivial=True):
+    try:
+        p_sides, p_bnd, obs = _ring_problems(geo, lons, lats, k)
+    except Exception as e:  # noqa
+        ctx.fail("BaseDefinition.get_bbox_lonlats", f"raised {type(e).__name__}: {str(e)[:160]}", inp, tags=tags, size=sum(lons.shape))
+        ctx.case(suite, key, nontrivial=nontrivial)
+        return False
+    H, W = lons.shape
+    if p_sides:
+        ctx.fail("BaseDefinition.get_bbox_lonlats", "; ".join(p_sides[:3]), inp, obs, tags=tags, size=H + W)
+    if p_bnd:
+        ctx.fail("BaseDefinition.boundary", "; ".join(p_bnd[:3]), inp, obs, tags=tags, size=H + W)
+    ctx.case(suite, key, nontrivial=nontrivial, sample={"input": {k_: v for k_, v in inp.items() if k_ not in ("lons", "lats")}, **obs} if k == 5 else None)
+    return not (p_sides or p_bnd)
+
+
+PASSES = (("pass_midlat", 10.0, 50.0, 18.0), ("pass_high", -40.0, 74.0, 14.0), ("pass_south", 150.0, -35.0, 16.0),
+          ("pass_equator", -60.0, 2.0, 20.0), ("pass_dateline", 178.0, 25.0, 12.0))
+
+
+def suite_appended(ctx):
+    """2-D swaths put together from granules: extended in place with append() (once or several times, with or without boundary
+    requests in between), joined with concatenate(), built directly.  The boundary of the result is that of the CURRENT arrays."""
+    from pyresample.geometry import SwathDefinition
+    r = ctx.rng
+    n_geo = 4 if ctx.quick else 12
+    for g in range(n_geo):
+        pname, lon0, lat0, span = PASSES[g % len(PASSES)] if g < len(PASSES) else r.choice(PASSES)
+        H, W = r.randrange(5, 18), r.randrange(3, 11)
+        lon, lat = kc.swath(r, H, W, lon0, lat0, span)
+        orients = _orientations(lon, lat)
+        for orient, lo, la in (orients if not ctx.quick else r.sample(orients, 3)):
+            hh, ww = lo.shape
+            n_gran = r.choice([2, 2, 3, 4])
+            cuts = sorted(r.sample(range(1, hh), min(n_gran - 1, hh - 1)))
+            bounds = [0] + cuts + [hh]
+            granules = [(lo[a:b_].copy(), la[a:b_].copy()) for a, b_ in zip(bounds, bounds[1:])]
+            all_k = [None, 2, 3, 5, bounds[1], max(2, bounds[1] - 1), bounds[1] + 1, min(hh, ww), max(hh, ww), max(hh, ww) + 3, 50]
+            all_k = [k for k in dict.fromkeys(all_k) if k is None or k >= 2]
+            for k in (all_k if not ctx.quick else [None] + r.sample(all_k[1:], 3)):
+                for mode in ("append", "append_boundary_in_between", "concatenate", "direct"):
+                    base = {"geometry": pname, "orientation": orient, "mode": mode, "granule_rows": [b_ - a for a, b_ in zip(bounds, bounds[1:])],
+                            "width": ww, "vertices_per_side": k, "lons": lo.tolist(), "lats": la.tolist()}
+                    tags = {"family": "appended", "mode": mode, "orientation": orient, "k_gt_side": k is not None and k > min(hh, ww)}
+                    try:
+                        with warnings.catch_warnings():
+                            warnings.simplefilter("ignore")
+                            if mode == "direct":
+                                sw = SwathDefinition(lo.copy(), la.copy())
+                            elif mode == "concatenate":
+                                sw = SwathDefinition(*[a.copy() for a in granules[0]])
+                                for gl, ga in granules[1:]:
+                                    sw = sw.concatenate(SwathDefinition(gl.copy(), ga.copy()))
+                            else:
+                                sw = SwathDefinition(*[a.copy() for a in granules[0]])
+                                rows = granules[0][0].shape[0]
+                                for gl, ga in granules[1:]:
+                                    if mode == "append_boundary_in_between" and rows >= 2:
+                                        # the boundary of what is there so far is a boundary like any other
+                                        _report(ctx, "appended.partial", sw, lo[:rows], la[:rows], k, {**base, "rows_so_far": rows, "lons": lo[:rows].tolist(),
+                                                                                                 "lats": la[:rows].tolist()}, tags,
+                                                (pname, orient, hh, ww, k, mode, rows))
+                                    sw.append(SwathDefinition(gl.copy(), ga.copy()))
+                                    rows += gl.shape[0]
+                    except Exception as e:  # noqa
+                        ctx.fail("CoordinateDefinition.append", f"building the swath raised {type(e).__name__}: {str(e)[:160]}", base, tags=tags, size=hh + ww)
+                        continue
+                    if not (np.array_equal(np.asarray(sw.lons), lo) and np.array_equal(np.asarray(sw.lats), la)):
+                        # not this property's business (the coordinates themselves are wrong): the ring is still judged on the arrays the geometry holds
+                        ctx.note(f"appended: {mode} did not yield the stacked granules for {pname}/{orient}")
+                        cur_lo, cur_la = np.asarray(sw.lons, float), np.asarray(sw.lats, float)
+                    else:
+                        cur_lo, cur_la = lo, la
+                    _report(ctx, "appended", sw, cur_lo, cur_la, k, base, tags, (pname, orient, hh, ww, k, mode, tuple(bounds)),
+                            nontrivial=mode.startswith("append"))
+                    ctx.count(f"appended.mode.{mode}")
+                    ctx.count(f"appended.granules.{len(granules)}")
+
+
+def _call(geo, what, k, k_other):
+    """one earlier request on the geometry object; its result is evaluated the way a caller would (contour, polygon)"""
+    if what == "boundary()":
+        b = geo.boundary(vertices_per_side=k)
+    elif what == "boundary(force_clockwise=False)":
+        b = geo.boundary(vertices_per_side=k, force_clockwise=False)
+    elif what == "boundary(force_clockwise=True)":
+        b = geo.boundary(vertices_per_side=k, force_clockwise=True)
+    elif what == "boundary(other k)":
+        b = geo.boundary(vertices_per_side=k_other)
+    elif what == "boundary(other k, force_clockwise=True)":
+        b = geo.boundary(vertices_per_side=k_other, force_clockwise=True)
+    elif what == "get_bbox_lonlats(force_clockwise=False)":
+        return geo.get_bbox_lonlats(vertices_per_side=k, force_clockwise=False)
+    elif what == "get_bbox_lonlats(force_clockwise=True)":
+        return geo.get_bbox_lonlats(vertices_per_side=k, force_clockwise=True)
+    elif what == "get_edge_lonlats()":
+        return geo.get_edge_lonlats(vertices_per_side=k)
+    else:
+        raise ValueError(what)
+    b.contour()
+    return b
+
+
+PRELUDES = ("boundary()", "boundary(force_clockwise=False)", "boundary(force_clockwise=True)", "boundary(other k)",
+            "boundary(other k, force_clockwise=True)", "get_bbox_lonlats(force_clockwise=False)", "get_bbox_lonlats(force_clockwise=True)",
+            "get_edge_lonlats()")
+
+
+def suite_call_sequences(ctx):
+    """The boundary of a geometry is a function of the geometry and vertices_per_side: whatever was asked of the same object before
+    (the plain outline in array order, other vertex counts, the same request), get_bbox_lonlats(force_clockwise=True) and
+    boundary(force_clockwise=True) give the closed clockwise ring, for every array orientation; and the plain outline
+    (force_clockwise False / default) asked afterwards is still the four sides in array order."""
+    from pyresample.geometry import SwathDefinition
+    r = ctx.rng
+    geoms = []      # (name, orientation, factory, lons, lats)
+    for pname, lon0, lat0, span in (PASSES if not ctx.quick else r.sample(PASSES, 2)):
+        H, W = r.randrange(4, 12), r.randrange(4, 12)
+        lon, lat = kc.swath(r, H, W, lon0, lat0, span)
+        for orient, lo, la in _orientations(lon, lat):
+            geoms.append((pname, orient, (lambda lo=lo, la=la: SwathDefinition(lo.copy(), la.copy())), lo, la))
+    specs = [("laea", {"proj": "laea", "lat_0": 55, "lon_0": 15, "ellps": "WGS84"}, (-6.0e5, -4.0e5, 6.0e5, 5.0e5)),
+             ("stere", {"proj": "stere", "lat_0": 90, "lat_ts": 60, "lon_0": 0, "ellps": "WGS84"}, (-1.0e6, -3.0e6, 1.0e6, -1.0e6)),
+             ("merc", {"proj": "merc", "lon_0": 0, "ellps": "WGS84"}, (-1.0e6, 2.0e6, 1.5e6, 4.0e6)),
+             ("eqc", {"proj": "eqc", "lon_0": 0, "ellps": "WGS84"}, (1.0e6, -2.0e6, 3.0e6, -0.5e6)),
+             ("longlat", {"proj": "longlat", "datum": "WGS84"}, (100.0, 10.0, 130.0, 35.0))]
+    for nm, proj, ext in (specs if not ctx.quick else r.sample(specs, 2)):
+        H, W = r.randrange(4, 12), r.randrange(4, 12)
+        x0, y0, x1, y1 = ext
+        for orient, e in (("north_up", (x0, y0, x1, y1)), ("flipped_x", (x1, y0, x0, y1)), ("flipped_y", (x0, y1, x1, y0)), ("flipped_xy", (x1, y1, x0, y0))):
+            make = (lambda proj=proj, W=W, H=H, e=e: kc.mk_area(proj, W, H, e))
+            with warnings.catch_warnings():
+                warnings.simplefilter("ignore")
+                lo, la = make().get_lonlats()
+            geoms.append((f"area_{nm}", orient, make, np.asarray(lo, float), np.asarray(la, float)))
+    for name, orient, make, lo, la in geoms:
+        H, W = lo.shape
+        all_k = [None, 2, 3, 5, min(H, W), max(H, W), max(H, W) + 3, 50]
+        for k in (all_k if not ctx.quick else r.sample(all_k, 3)):
+            k_other = r.choice([q for q in (None, 2, 4, 7, 50) if q != k])
+            # always the two-step sequence "plain outline, then the clockwise ring"; plus random longer histories
+            preludes = [["boundary()"], [r.choice(PRELUDES[:2]), r.choice(PRELUDES)]]
+            preludes += [[r.choice(PRELUDES) for _ in range(r.randrange(1, 4))] for _ in range(1 if ctx.quick else 2)]
+            for prelude in preludes:
+                inp = {"geometry": name, "orientation": orient, "shape": [H, W], "vertices_per_side": k, "other_vertices_per_side": k_other,
+                       "calls_before": prelude, "lons": lo.tolist(), "lats": la.tolist()}
+                tags = {"family": "call-sequence", "orientation": orient, "k_gt_side": k is not None and k > min(H, W)}
+                geo = make()
+                try:
+                    with warnings.catch_warnings():
+                        warnings.simplefilter("ignore")
+                        for what in prelude:
+                            _call(geo, what, k, k_other)
+                except Exception as e:  # noqa
+                    ctx.fail("BaseDefinition.boundary", f"{prelude} raised {type(e).__name__}: {str(e)[:160]}", inp, tags=tags, size=H + W)
+                    continue
+                ok = _report(ctx, "call-sequence", geo, lo, la, k, inp, tags, (name, orient, H, W, k, k_other, tuple(prelude)))
+                ctx.count(f"call-sequence.first.{prelude[0]}")
+                # afterwards, the plain outline: the four sides in array order, starting at pixel (0, 0), whichever way they run
+                with warnings.catch_warnings():
+                    warnings.simplefilter("ignore")
+                    plain = geo.boundary(vertices_per_side=k)
+                    plon, plat = plain.contour()
+                    plain2 = geo.boundary(vertices_per_side=k, force_clockwise=False)
+                    p2lon, p2lat = plain2.contour()
+                    raw_lon, raw_lat = make().get_bbox_lonlats(vertices_per_side=k, force_clockwise=False)      # a fresh object
+                want_lon = np.concatenate([np.asarray(s_, float)[:-1] for s_ in raw_lon])
+                want_lat = np.concatenate([np.asarray(s_, float)[:-1] for s_ in raw_lat])
+                if not (want_lon[0] == lo[0, 0] and want_lat[0] == la[0, 0]):
+                    ctx.fail("BaseDefinition.get_bbox_lonlats", "the sides in array order (force_clockwise=False) of a fresh geometry do not begin at pixel (0, 0)", inp, tags=tags, size=H + W)
+                if ok and not (np.array_equal(np.asarray(plon, float), want_lon) and np.array_equal(np.asarray(plat, float), want_lat)
+                               and np.array_equal(np.asarray(p2lon, float), want_lon) and np.array_equal(np.asarray(p2lat, float), want_lat)):
+                    ctx.fail("BaseDefinition.boundary", "after these requests the plain outline boundary(vertices_per_side) (force_clockwise False) is no longer "
+                             "first row, last column, last row, first column in array order", {**inp, "calls_before": prelude + ["get_bbox_lonlats(True)", "boundary(True)"]},
+                             {"first_vertex": [float(plon[0]), float(plat[0])], "pixel_0_0": [float(lo[0, 0]), float(la[0, 0])]}, tags=tags, size=H + W)
+                ctx.case("call-sequence.plain-after", (name, orient, H, W, k, tuple(prelude)), nontrivial=True)
+
+
 def run(ctx):
     suite_indices(ctx)
     suite_geometries(ctx)
     suite_geos(ctx)
+    suite_appended(ctx)
+    suite_call_sequences(ctx)
